@@ -17,7 +17,7 @@ from svgpathtools import Line, QuadraticBezier, CubicBezier, Arc, Path
 
 SHAPES = ['L_diagonal', 'L_horizontal', 'Q_generic', 'Q_collinear_nofold', 'Q_nondyadic',
           'C_arch', 'C_sshape', 'C_loop', 'C_axis_line_shaped', 'C_monotone',
-          'A_circle_small_ccw', 'A_circle_large_cw', 'A_ellipse_3to1', 'A_ellipse_rot30', 'A_rot400']
+          'A_circle_small_ccw', 'A_circle_large_cw', 'A_ellipse_3to1', 'A_ellipse_rot30', 'A_rot400', 'A_rot180_large']
 
 
 def is_circ_unrot(seg):
@@ -84,6 +84,35 @@ def min_distance_elsewhere(A, B, tA, tB, window=0.05, n=301):
     mask = (np.abs(ta[:, None] - tA) < window) & (np.abs(tb[None, :] - tB) < window)
     D = np.where(mask, np.inf, D)
     return float(D.min())
+
+
+def loop_node(seg, n=400):
+    """parameters (t, s), t < s, of a self-intersection of a Bezier segment, or None"""
+    ts = np.linspace(0, 1, n + 1)
+    P = np.array([seg.point(t) for t in ts])
+    D = np.abs(P[:, None] - P[None, :])
+    I, J = np.indices(D.shape)
+    D = np.where(J - I < n // 10, np.inf, D)
+    i, j = np.unravel_index(np.argmin(D), D.shape)
+    if D[i, j] > 4 * np.abs(np.diff(P)).max():
+        return None
+    t, s_ = ts[i], ts[j]
+    h = 1e-7
+    for _ in range(60):             # Newton on F(t, s) = B(t) - B(s)
+        F = seg.point(t) - seg.point(s_)
+        dt = (seg.point(t + h) - seg.point(t - h)) / (2 * h)
+        ds = -(seg.point(s_ + h) - seg.point(s_ - h)) / (2 * h)
+        det = dt.real * ds.imag - dt.imag * ds.real
+        if det == 0:
+            return None
+        a = (-F.real * ds.imag + F.imag * ds.real) / det
+        b = (-dt.real * F.imag + dt.imag * F.real) / det
+        t, s_ = t + a, s_ + b
+        if abs(a) + abs(b) < 1e-15:
+            break
+    if not (0 < t < s_ < 1) or abs(seg.point(t) - seg.point(s_)) > 1e-9:
+        return None
+    return float(t), float(s_)
 
 
 # ---------------------------------------------------------------- exact counts (Line x Bezier)
